@@ -180,6 +180,12 @@ def run_ep(acc, fn, data, case):
 def run_input(acc, eps, data, case, key, nontrivial=True):
     outs = tuple(run_ep(acc, fn, data, case) for fn in eps)
     acc.case(key, nontrivial=nontrivial, outcome=outs)
+    # the same bytes handed over as bytes and as a path have the same documented result: both a configuration or
+    # both the documented ValueError
+    if ep_from_bytes in eps and ep_from_path in eps:
+        a, b = outs[eps.index(ep_from_bytes)], outs[eps.index(ep_from_path)]
+        if {a, b} == {"ok", "ValueError"}:
+            acc.fail("C08/entry-points-disagree/from_bytes-vs-from_path", dict(case, entry="ep_from_bytes+ep_from_path"), {"from_bytes": a}, {"from_path": b})
 
 
 # ------------------------------------------------------------------------------------------------------------------
@@ -529,6 +535,10 @@ def replay(case):
     else:
         data = bytes.fromhex(case["data"])
         eps = list(ALL_EPS.values())
+    if case.get("entry") == "ep_from_bytes+ep_from_path":
+        run_input(a, [ep_from_bytes, ep_from_path], data, {k: v for k, v in case.items() if k != "entry"}, "replay")
+        v = a.violations[0] if a.violations else None
+        return {"ok": v is None, "expected": v["expected"] if v else None, "observed": v["observed"] if v else None}
     if "entry" in case:
         eps = [ALL_EPS[case["entry"]]]
     elif "entry_only" in case:
